@@ -150,7 +150,9 @@ AssembleFails(e) ==
         \cup (IF e.twin.by = "rc" /\ out.kind = "product" /\ g.unused = {}
               THEN Chk("C12:StrandSymAssembly", e.twin.out.kind = "product" /\ CycEq(e.twin.out.seq, RC(out.seq))) ELSE {})
         \cup (IF e.twin.by = "swap" /\ out.kind = "product" /\ ProductAllowed(g)
-              THEN LET nd == DecompModule(e.twin.mod.seq, e.enz)  j == e.twin.pos IN
+              THEN LET nd0 == DecompModule(e.twin.mod.seq, e.enz)
+                       nd == IF nd0.ok THEN nd0 ELSE DecompModuleFirst(e.twin.mod.seq, e.enz)     \* (a valid module may carry more sites behind its structure)
+                       j == e.twin.pos IN
                    IF nd.ok /\ Len(nd.tgt) >= e.enz.ovh + MinBody /\ Eq(nd.up, dm[j].up) /\ Eq(nd.down, dm[j].down)
                    THEN Chk("C19:Interchange",
                             /\ e.twin.out.kind = "product"
